@@ -213,9 +213,8 @@ Definition cur (all : list gl) (L : val -> val) (r : val) : val := if hierb all 
    its group leader in that level *)
 Definition lead_step (mf : fl) (n : Z) (all : list gl) (col0 : list val) (lv : gl)
                      (L : val -> val) : val -> val :=
-  fun x => let c := L x in
-           if mem c (values lv) && negb (keepb mf n (map (cur all L) col0) c)
-           then get_group lv c else c.
+  let tg := to_group mf n (map (cur all L) col0) lv in      (* evaluated once per level *)
+  fun x => let c := L x in if mem c tg then get_group lv c else c.
 
 Fixpoint lead (mf : fl) (n : Z) (all : list gl) (col0 : list val) (lvs : list gl)
               (L : val -> val) : val -> val :=
